@@ -235,6 +235,8 @@ impl Reporter {
         self.transitions += other.transitions;
     }
 
+    pub fn finish_check(&mut self) {}
+
     pub fn total_violations(&self) -> u64 {
         self.clauses.values().map(|c| c.n_violations).sum()
     }
